@@ -311,7 +311,58 @@ def check_seq(arg):
     return fails, 1
 
 
+def check_switch_history(arg):
+    """assigning a switch the value it already has is an operation like any other: after it the ACL is what the same assignment gives on an ACL that
+    reached the same rules another way (an entry object with its own switch settings was inserted in between)"""
+    import cisco_acl
+    platform, switch, value, pre = arg
+    head = "ip access-list extended A1" if platform == "ios" else "ip access-list A1"
+    body = ["permit tcp any any eq 80", "permit udp any any eq 53", "deny 47 any any", "permit 6 host 10.0.0.1 any eq 22"]
+    raw = "permit tcp any any eq 23" if switch == "port_nr" else "permit 17 any any"          # telnet / udp: rendered differently under the two settings
+
+    def build(order):
+        acl = cisco_acl.Acl("\n".join([head] + body), platform=platform)
+        for op in order:
+            if op == "switch":
+                setattr(acl, switch, value)
+            elif op == "other":
+                setattr(acl, switch, not value)
+            elif op == "insert":
+                acl.insert(1, cisco_acl.Ace(raw, platform=platform))           # the entry carries the default settings
+            elif op == "pop-insert":
+                it = acl.pop(0)
+                setattr(acl, switch, value)
+                acl.insert(0, it)
+        return acl
+    a = build(pre + ("switch",))
+    b = build(("insert",) * pre.count("insert") + ("switch",)) if "pop-insert" not in pre else build(("switch",))
+    fails = []
+    what = None
+    if a.line != b.line:
+        what = f"{platform}: after {list(pre)} and then `{switch} = {value}` the ACL reads {a.line.splitlines()[1:]}; the same rules with the same assignment applied once read {b.line.splitlines()[1:]}"
+    else:
+        again = cisco_acl.Acl(a.line, platform=platform, **{switch: value})
+        if again.line != a.line:
+            what = f"{platform}: after {list(pre)} and `{switch} = {value}` the text does not parse back to itself"
+    if what:
+        fails.append(dict(key=f"bounded/ops:history:{switch}", what=what, inputs=dict(platform=platform, switch=switch, value=value, before=list(pre)),
+                          cmd=("import sys; sys.path.insert(0, 'props'); import C17\n"
+                               f"fails, _ = C17.check_switch_history({arg!r})\nprint([f['what'] for f in fails]); sys.exit(1 if fails else 0)\n")))
+    return fails, 1
+
+
 def main(chk):
+    t0 = time.time()
+    hcases = [(p, sw, v, pre) for p in ("ios", "nxos") for sw in ("port_nr", "protocol_nr") for v in (True, False)
+              for pre in (("switch", "insert"), ("insert",), ("other", "switch", "insert"), ("switch", "pop-insert"), ("switch", "insert", "insert"), ("other", "insert"))]
+    hres = pmap(check_switch_history, hcases)
+    hviol = 0
+    for fails, _ in hres:
+        for f in fails:
+            hviol += 1
+            chk.finding(f["key"], f["what"], inputs=f["inputs"], cmd=f.get("cmd"), key=f["key"])
+    chk.add_bounded("a switch assigned the value it already has, after entry objects with other settings were inserted: same result as on any other path to the same rules",
+                    len(hcases), len(hcases), "2 platforms x 2 switches x 2 values x 6 prefixes", hviol, time.time() - t0, [list(hcases[0][:3])], exhaustive=True)
     t0 = time.time()
     n = 2 if chk.tier == "quick" else 3
     cases = []
